@@ -135,9 +135,15 @@ fn eat_metric(parser: &mut Parser, recovery: TokenSet) -> bool {
             expect_variation_location_and_value(parser, recovery.add(Kind::RParen))
         }) {
             while !parser.at_eof() && !parser.matches(0, Kind::RParen) {
+                let start = parser.nth_range(0).start;
                 if !parser.in_node(AstKind::LocationValueNode, |parser| {
                     eat_variation_location_and_value(parser, recovery.add(Kind::RParen))
                 }) {
+                    break;
+                }
+                // a malformed item that error recovery could not get past: stop rather than
+                // retrying at the same token forever
+                if parser.nth_range(0).start == start {
                     break;
                 }
             }
